@@ -1,4 +1,5 @@
 import pv
+READY = True
 
 SPEC = {
     "targets": ["Properties/C01.vo", "Run/C01.vo"],
